@@ -664,30 +664,33 @@ macro "clean_tac" : tactic => `(tactic| repeat' (first
   ))
 
 /-- every operation of every family -/
-theorem prog_clean_all (fam op : String) (l : Phases) (v : Val) (nret : Nat) (P : Prog)
-    (h : prog Cfg.repaired fam op l v nret = some P) : Clean (fun _ => True) P := by
-  unfold prog at h
-  simp only [fixF17_rep, if_true] at h
-  split at h <;> (cases h; clean_tac)
+theorem prog_clean_all (tlv : Bool) (fam op : String) (l : Phases) (v : Val) (nret : Nat) (P : Prog)
+    (h : prog Cfg.repaired tlv fam op l v nret = some P) : Clean (fun _ => True) P := by
+  cases tlv <;>
+  (unfold prog at h
+   simp only [fixF17_rep, if_true, Bool.false_eq_true, if_false] at h
+   split at h <;> (cases h; clean_tac))
 
 /-- the Type 1/2/3 families only use the retry loops -/
-theorem prog_clean (fam op : String) (l : Phases) (v : Val) (nret : Nat) (P : Prog)
-    (h : prog Cfg.repaired fam op l v nret = some P) (h4 : fam ≠ "t4") : Clean LoopKind P := by
-  unfold prog at h
-  simp only [fixF17_rep, if_true] at h
-  split at h <;> first
-    | exact absurd rfl h4
-    | (cases h; clean_tac)
+theorem prog_clean (tlv : Bool) (fam op : String) (l : Phases) (v : Val) (nret : Nat) (P : Prog)
+    (h : prog Cfg.repaired tlv fam op l v nret = some P) (h4 : fam ≠ "t4") : Clean LoopKind P := by
+  cases tlv <;>
+  (unfold prog at h
+   simp only [fixF17_rep, if_true, Bool.false_eq_true, if_false] at h
+   split at h <;> first
+     | exact absurd rfl h4
+     | (cases h; clean_tac))
 
 /-- the Type 3 and Type 4 families only use robust primitives -/
-theorem prog_clean_robust (fam op : String) (l : Phases) (v : Val) (nret : Nat) (P : Prog)
-    (h : prog Cfg.repaired fam op l v nret = some P)
+theorem prog_clean_robust (tlv : Bool) (fam op : String) (l : Phases) (v : Val) (nret : Nat) (P : Prog)
+    (h : prog Cfg.repaired tlv fam op l v nret = some P)
     (hf : fam = "t3" ∨ fam = "t3std" ∨ fam = "lite" ∨ fam = "t4") : Clean Robust P := by
-  unfold prog at h
-  simp only [fixF17_rep, if_true] at h
-  split at h <;> first
-    | (exfalso; revert hf; decide)
-    | (cases h; clean_tac)
+  cases tlv <;>
+  (unfold prog at h
+   simp only [fixF17_rep, if_true, Bool.false_eq_true, if_false] at h
+   split at h <;> first
+     | (exfalso; revert hf; decide)
+     | (cases h; clean_tac))
 
 theorem side_t3p (b : Bool) (ct : Catch) : PrimSide (t3p b) ct :=
   ⟨fun _ => ⟨(by show 0 < 3; decide), (by show 3 ≤ 3; decide)⟩, fun h => by cases h⟩
